@@ -61,6 +61,14 @@ def invalid_updates(rng, h):
             if mode == "move" and on and off:
                 a, b = rng.choice(on), rng.choice(off)
                 m2[a[0]][a[1]] = False; m2[b[0]][b[1]] = True
+            elif mode in ("moverow", "movecol") and on and off:
+                # the entry stays in its row (resp. column): per-row (per-column) counts unchanged, pattern different
+                k = 0 if mode == "moverow" else 1
+                pairs = [(a, b) for a in on for b in off if a[k] == b[k]]
+                if not pairs:
+                    return None
+                a, b = rng.choice(pairs)
+                m2[a[0]][a[1]] = False; m2[b[0]][b[1]] = True
             elif mode == "drop" and on:
                 a = rng.choice(on); m2[a[0]][a[1]] = False
             elif mode == "add" and off:
@@ -72,7 +80,7 @@ def invalid_updates(rng, h):
         for nm, M, mask, r, c in (("A", pr.A, pr.maskA, p, n), ("G", pr.G, pr.maskG, m, n)):
             if r == 0:
                 continue
-            for mode in ("move", "drop", "add"):
+            for mode in ("move", "moverow", "movecol", "drop", "add"):
                 rm = remask(M, mask, r, c, mode)
                 if rm:
                     out.append((f"{nm}-pattern-{mode}", "sol.update 1 " + pr.mat_arg(nm, rm[0], rm[1], r, c, True)))
